@@ -133,7 +133,13 @@ RECURSIVE TxStr(_, _, _), TeStr(_, _, _, _)
 TxStr(m, tx, i) == IF i > Len(tx) THEN "" ELSE "+" \o RatStr(tx[i][1]) \o "*" \o VarStr(m, tx[i][2], tx[i][3]) \o TxStr(m, tx, i + 1)
 TeStr(names, te, i, dummy) == IF i > Len(te) THEN "" ELSE "+" \o RatStr(te[i][1]) \o "*" \o names[te[i][2]] \o TeStr(names, te, i + 1, dummy)
 EqStr(m, eq) == "0 = " \o RatStr(eq.c) \o TxStr(m, eq.tx, 1) \o TeStr(m.shocks, eq.te, 1, 0) \o ";"
-MeqStr(m, i) == m.mvars[i] \o " = " \o RatStr(m.meqs[i].d) \o TxStr(m, m.meqs[i].tx, 1) \o TeStr(m.mshocks, m.meqs[i].tw, 1, 0) \o ";"
+MeqRhs(m, i) == RatStr(m.meqs[i].d) \o TxStr(m, m.meqs[i].tx, 1) \o TeStr(m.mshocks, m.meqs[i].tw, 1, 0)
+MeqStr(m, i) == m.mvars[i] \o " = " \o MeqRhs(m, i) \o ";"
+\* the same measurement block written as a simultaneous block: from the second equation on, twice the previous equation is added
+\* (y_i = rhs_i + 2 (y_{i-1} - rhs_{i-1})); the meaning is unchanged, the Jacobian with respect to the measurement variables is no
+\* longer the identity (nor symmetric)
+MeqStrB(m, i) == IF i = 1 THEN MeqStr(m, i)
+                 ELSE m.mvars[i] \o " = " \o MeqRhs(m, i) \o "+(2)*(" \o m.mvars[i - 1] \o "-(" \o MeqRhs(m, i - 1) \o "));"
 RECURSIVE JoinNames(_, _)
 JoinNames(q, i) == IF i > Len(q) THEN "" ELSE (IF i = 1 THEN "" ELSE ", ") \o q[i] \o JoinNames(q, i + 1)
 SetSeq(S, order) == SelectSeq(order, LAMBDA x : x \in S)
@@ -145,4 +151,12 @@ Source(m) == << "!transition_variables", JoinNames(m.vars, 1) >>
                  << "!measurement_variables", JoinNames(m.mvars, 1) >>
                  \o (IF m.mshocks = <<>> THEN <<>> ELSE << "!measurement_shocks", JoinNames(m.mshocks, 1) >>)
                  \o << "!measurement_equations" >> \o [i \in 1..Len(m.meqs) |-> MeqStr(m, i)])
+SourceB(m) == << "!transition_variables", JoinNames(m.vars, 1) >>
+             \o (IF m.logv = {} THEN <<>> ELSE << "!log-variables", JoinNames(SetSeq(m.logv, m.vars), 1) >>)
+             \o << "!transition_shocks", JoinNames(m.shocks, 1), "!transition_equations" >>
+             \o [i \in 1..Len(m.eqs) |-> EqStr(m, m.eqs[i])]
+             \o (IF m.mvars = <<>> THEN <<>> ELSE
+                 << "!measurement_variables", JoinNames(m.mvars, 1) >>
+                 \o (IF m.mshocks = <<>> THEN <<>> ELSE << "!measurement_shocks", JoinNames(m.mshocks, 1) >>)
+                 \o << "!measurement_equations" >> \o [i \in 1..Len(m.meqs) |-> MeqStrB(m, i)])
 =============================================================================
